@@ -5,6 +5,7 @@ import SleapVerif.Model.Oks
 * `oks <coco> <eps> <sds:list rat> <gts:list (scale:orat, pts:list (orat orat))> <prs:list (pts)>`
     → `<asis:ok|raise> <n_gt> <n_pr> v…` row-major, the generic model run at `Float` with `Float.exp`
       (`nan` = NaN), values as IEEE bit patterns
+* `oksr …` (same arguments) → the same matrix with everything up to the argument of `exp` computed exactly at `Rat`
 * `area <pts>` → exact `Rat` bbox area or `nan`
 * `nvis <pts>` → number of visible points
 * `d2 <gpts> <ppts>` → exact squared distances per node (`nan` when either is missing)
@@ -41,6 +42,28 @@ def handle (line : String) : String :=
       let asis := match oksMatrixAsIs (R := Rat) (fun _ => 0) coco eps sds gts prs with
         | none => "raise" | some _ => "ok"
       s!"{asis} {gts.length} {prs.length} " ++ " ".intercalate (m.flatten.map ofloatStr)
+    | none => "bad-op"
+  | "oksr" :: rest =>
+    -- the exact part at `Rat` (squared distances, bbox area, normalisation, the argument of exp),
+    -- then `Float.exp`, the sum and the division at `Float`
+    match runP (do
+        let coco ← bool; let eps ← rat; let sds ← listOf rat
+        let gts ← listOf (do let s ← orat; let p ← pts; pure (s, p))
+        let prs ← listOf pts
+        pure (coco, eps, sds, gts, prs)) rest with
+    | some (coco, eps, sds, gts, prs) =>
+      let cell (g : Option Rat × List (Pt Rat)) (p : List (Pt Rat)) : Option Float :=
+        match scaleOf g.1 g.2 with
+        | none => none
+        | some s =>
+          let nodes := mkNodes sds g.2 p
+          if nVis nodes = 0 then none
+          else
+            let ksF : List Float := nodes.map (fun n => match ksArg coco eps s n with
+              | some x => Float.exp (toF x) | none => 0)
+            some (sumR ksF / Float.ofNat (nVis nodes))
+      s!"ok {gts.length} {prs.length} " ++
+        " ".intercalate ((gts.map (fun g => prs.map (cell g))).flatten.map ofloatStr)
     | none => "bad-op"
   | "area" :: rest =>
     match runP pts rest with
